@@ -306,7 +306,8 @@ func (c schemaContents) getDevices() ([]schemaContents, error) {
 
 // validateContents performs additional validation against the schema contents.
 func (s *Schema) validateContents(any map[string]interface{}) error {
-	if any == nil || s == nil {
+	// The "none" schema (like a nil one) accepts every document.
+	if any == nil || s == nil || s.schema == nil {
 		return nil
 	}
 
